@@ -331,6 +331,9 @@ class SymSeq(Sym):
         if not isinstance(o, SymSeq):
             return False
         a, b = self.norm(), o.norm()
+        if len(a) != len(b) or any(isinstance(x, Piece) != isinstance(y, Piece) for x, y in zip(a, b)):
+            # shapes differ: make them canonical by deciding (forking on) emptiness of every abstract piece
+            a, b = self._nonempty_norm(), o._nonempty_norm()
         # allow a Piece of provably positive length vs elements only when shapes agree
         if len(a) != len(b):
             la, lb = self.length(), o.length()
@@ -352,6 +355,16 @@ class SymSeq(Sym):
             else:
                 conds.append(toint(x) == toint(y))
         return S(z3.And(conds)) if conds else True
+
+    def _nonempty_norm(self):
+        C = core.CTX
+        keep = []
+        for it in self.items:
+            if isinstance(it, Piece) and C is not None and getattr(C, "symbolic", False):
+                if C.branch(it.ln <= 0):
+                    continue
+            keep.append(it)
+        return SymSeq(keep, self.kind).norm()
 
     def __eq__(self, o):
         r = self.eq_term(o)
